@@ -5,6 +5,7 @@ Transitions call the real methods; after every one the arm's reported state is c
 Solver answers (IK joint vectors) are environment answers: taken from the implementation, then checked.
 """
 import copy
+import os
 
 import numpy as np
 
@@ -229,7 +230,13 @@ class Spec:
         thc = m.clamp(tha)
         want = m.fk(tha if (st.loose or st.unclamped) else thc)
         sc = max(1.0, float(np.abs(want[:3, 3]).max()))
-        tol = pose_tol(st, want) if st.loose else TOL * sc
+        # the library's exponential treats a joint rotation below 1e-6 rad as none (C01 accepts that cut-off); a joint value
+        # inside (0, 1e-6) - only a diverged free solve produces one - therefore moves the pose by up to |theta_i| * reach
+        tiny = np.abs(tha)[(np.abs(tha) > 0) & (np.abs(tha) < 1e-6)]
+        cut = float(tiny.sum()) * 2.0 * (sc + float(np.abs(m.base[:3, 3]).max()))
+        tol = (pose_tol(st, want) if st.loose else TOL * sc) + cut
+        if st.unclamped:        # a diverged free solve can leave joint values of any size; wrapping them costs eps*|theta|
+            tol = max(tol, 1e-13 * float(np.abs(tha).max()) * sc * 10)
         flag("reported_pose_vs_state", perr(a.getEEPos().gTM(), want), tol)
         # queries with defaulted joint arguments refer to that state (on private copies: they may clamp in place)
         for q in ("jacobian", "jacobianBody"):
@@ -239,7 +246,7 @@ class Spec:
             flag(q + "_default_args", perr(J1, J2), 1e-9 * max(1.0, float(np.abs(J2).max())))
         a3 = copy.deepcopy(a)
         r = a3.FK(tha.copy())
-        flag("fk_of_state", perr(r.gTM(), m.fk(thc)), TOL * sc)
+        flag("fk_of_state", perr(r.gTM(), m.fk(thc)), TOL * sc + cut)
         a4 = copy.deepcopy(a)
         jt = a4.getJointTransforms()
         frames, last_joint, tool = m.joint_frames(thc)
@@ -252,15 +259,15 @@ class Spec:
             idx = [i for i in range(len(got)) if not (has_last and i == len(got) - 2)]
             errs = [perr(got[i], exp[i]) for i in idx]
             q = {}
-            if m.frames_local is not None and max(errs) > TOL * sc:
+            if m.frames_local is not None and max(errs) > TOL * sc + cut:
                 # move() re-bases stored joint frames through the library's logarithm; a home frame whose rotation lies
                 # within 3e-5 of a half turn is where that logarithm is known to be inaccurate (KF1)
-                off = [i for i, e in zip(idx, errs) if e > TOL * sc and i < len(m.frames_local)]
+                off = [i for i, e in zip(idx, errs) if e > TOL * sc + cut and i < len(m.frames_local)]
                 if off:
                     q = {"pi_minus_angle": max(np.pi - se3.rangle(m.frames_local[i][:3, :3]) for i in off)}
-            flag("joint_frames", max(errs), TOL * sc, quantities=q)
+            flag("joint_frames", max(errs), TOL * sc + cut, quantities=q)
             if has_last:
-                flag("joint_frames_last_joint", perr(got[-2], exp[-2]), TOL * sc,
+                flag("joint_frames_last_joint", perr(got[-2], exp[-2]), TOL * sc + cut,
                      flags={"urdf_arm": bool(m.urdf), "tool_changed": bool(st.tool_changed)})
         return bad
 
@@ -283,7 +290,7 @@ def arms_for(tier, seed):
 
 
 def run(ctx):
-    depth = 3 if ctx.tier == "thorough" else 2
+    depth = int(os.environ.get("VERIF_C05_DEPTH", "4" if ctx.tier == "thorough" else "2"))
     ctx.level = "model_checking"
     results = []
     with ctx.pool() as pool:
